@@ -141,9 +141,9 @@ def run(prop, tier, seed, replay=None):
         out.violation("%s/proof/%s" % (prop, proof["failing"]), "proof obligation no longer checks: %s" % proof["failing"],
                       {"theorem_or_file": proof["failing"], "log": proof["log"][-3000:]}, no_input=True)
     async_cov = None
-    if prop == "C05" and not replay:
+    if prop in ("C05", "C10") and not replay:
         import check_async
-        async_cov = check_async.run("C05", tier, seed, extra=out)
+        async_cov = check_async.run(prop, tier, seed, extra=out)
     cov = {
         "obligations": proof["obligations"], "discharged": proof["discharged"],
         "evaluations": len(co), "distinct_nontrivial": len(nontriv),
@@ -160,6 +160,49 @@ def run(prop, tier, seed, replay=None):
         cov["evaluations"] += async_cov.get("evaluations", 0)
         cov["distinct_nontrivial"] += async_cov.get("distinct_nontrivial", 0)
     return out.finish(proof, cov)
+
+
+def embedded(prop, tier, seed, out, known, want):
+    """the synchronous family run on behalf of another property's check (C04: fan-out graphs where one branch
+    finishes inside update() and another one holds the element)"""
+    rng = random.Random(seed * 1000003 + 404)
+    # the asynchronous part that ran before in this process removed the thread's current event loop; a plain
+    # synchronous program has one (zip creates a wait-future when an input runs over its bound)
+    import asyncio
+    try:
+        asyncio.get_event_loop()
+    except RuntimeError:
+        asyncio.set_event_loop(asyncio.new_event_loop())
+    cases = gen_cases(rng, {"quick": 300, "thorough": 3000}[tier], tier, None)
+    co = []
+    nfind = 0
+    for ci, c in enumerate(cases):
+        try:
+            o, diag = syncfam.run_case(c)
+        except Exception as e:
+            continue
+        co.append((c, o))
+        for (p, sig, msg) in syncoracle.check_case(c, o, diag, want=want):
+            if p not in want:
+                continue
+            if sig in known:
+                out.known_finding(sig, known[sig]["what"])
+            elif nfind < 2:
+                def still(c2, sig=sig):
+                    try:
+                        o2, d2 = syncfam.run_case(c2)
+                    except Exception:
+                        return False
+                    return any(s_ == sig for _, s_, _ in syncoracle.check_case(c2, o2, d2, want=want))
+                out.violation(sig, msg, {"case": shrink(c, still), "family": "sync"})
+                nfind += 1
+            break
+    mism, errors = syncrun.correspondence(prop + "s", co)
+    if mism and not out.violations:
+        out.violation("%s/correspondence/model-differs/sync" % prop,
+                      "Coq model (Sync.Pipeline) and implementation disagree on %d of %d synchronous cases" % (len(mism), len(co)),
+                      {"case": co[mism[0]][0], "family": "sync", "correspondence": "Sync.Pipeline.agree"}, no_input=True)
+    return {"evaluations": len(co), "traces_validated_against_impl": len(co) - len(mism), "disagreements_checked": len(mism)}
 
 
 def fault_oracle(case, obs, diag):
@@ -185,7 +228,7 @@ def fault_oracle(case, obs, diag):
         prev_booms = o["booms"]
         if boomed and not o["raised"]:
             findings.append(("C16", "C16/exception-swallowed", "event %d: a user function raised but emit returned normally" % ei))
-        if o["raised"] and o.get("exc") not in ("Boom",):
+        if o["raised"] and o.get("exc") not in ("Boom", "StopIteration", "KeyError"):
             findings.append(("C16", "C16/other-exception/%s" % o.get("exc"), "event %d raised %s" % (ei, o.get("exc"))))
         if ev[0] == "flush":
             arrivals[ev[1]].append(Flush)
